@@ -58,6 +58,10 @@ func (c *MsgCase) Family() string {
 		return "M2-plural"
 	case strings.HasPrefix(c.ID, "X"):
 		return "M2-extra"
+	case strings.HasPrefix(c.ID, "N"):
+		return "M2-nested-plural"
+	case strings.HasPrefix(c.ID, "S"):
+		return "M2-text-meaning-split"
 	}
 	return "M2"
 }
